@@ -337,7 +337,7 @@ def run_hs(ctx, P):
     k = IR.modulus_len(int(pub.n))
     rng = ctx.rng
     group = "%s/%s" % (pair.VNAME[ver], su.name)
-    base = {"version": pair.VNAME[ver], "cipher_kind": su.cipher_kind}
+    base = {}      # version / suite are configuration: in the witness
 
     def enc_em(em):
         return lambda orig: to_ct(pub, em)
@@ -383,6 +383,7 @@ def run_hs(ctx, P):
     cts = [(c, to_ct(pub, em)) for c, em in classes]
     cts += raw_classes(rng, pub, 2)
     seen = {}
+    results = [("valid48_wrong_version_reference", None, ref)]
     for cls, ct in cts:
         if ct is None:
             ctx.count("skipped_em_ge_n")
@@ -394,16 +395,25 @@ def run_hs(ctx, P):
         fam = cls_family(cls)
         ctx.count("hs/" + fam)
         ctx.cell("hscell", "%s/%s" % (group, fam))
+        results.append((cls, ct, sig))
+    for cls, ct, sig in results:
         seen.setdefault(json.dumps(sig, sort_keys=True), []).append(cls)
-        if sig != ref:
-            diff = sorted(kk for kk in ref if sig is None or
-                          sig.get(kk) != ref[kk])
+    # the behaviour shared by most classes is the norm; every class that
+    # deviates from it (the two valid-padding controls included) is reported
+    norm = json.loads(max(seen, key=lambda kk: len(seen[kk])))
+    for cls, ct, sig in results:
+        if sig != norm:
+            fam = cls_family(cls)
+            diff = sorted(kk for kk in norm if sig is None or
+                          sig.get(kk) != norm[kk])
             ctx.violation(dict(base, clause="server_behaviour_differs",
                                **{"class": fam, "differs_in": diff}),
                           {"group": group, "class": cls, "ciphertext": ct,
-                           "got": sig, "reference": ref},
-                          "%s class %s: %s differ from 'valid padding, wrong "
-                          "version'" % (group, cls, diff))
+                           "got": sig, "norm": norm,
+                           "classes_with_norm": len(seen[json.dumps(
+                               norm, sort_keys=True)])},
+                          "%s class %s: %s differ from the behaviour of the "
+                          "other malformed premasters" % (group, cls, diff))
     ctx.maxi("distinct_signatures/" + group, len(seen))
     ctx.cell("hsgroup", group)
     ctx.cell("refsig", json.dumps({k2: ref[k2] for k2 in
